@@ -151,10 +151,13 @@ func DropAll() {
 
 func (p *Pool) Get() any {
 	if !vsched.Active() {
-		if p.real.New == nil && p.New != nil {
-			p.real.New = p.New
+		if x := p.real.Get(); x != nil {
+			return x
 		}
-		return p.real.Get()
+		if p.New != nil {
+			return p.New()
+		}
+		return nil
 	}
 	if !p.reg {
 		p.reg = true
